@@ -324,29 +324,30 @@ def r7(c):
                  'depends on self: %s' % (('l', 1) in cl), call.loc())
             oku = 'unit_id' in q.closure_names(b, call.args[1])
             c.ob('ffi/%s/unit' % meth, oku, 'the unit id handed to the C callback is the `unit_id` parameter', '', call.loc())
-        uo = b.calls('core::option::Option::unwrap_or')
         okd = False
-        for u in uo:
-            dv = q.agg_variant_of(b, u.args[1])
-            if dv == (AUTH, 'Deny'):
-                okd = True
-        if not uo and len(cb) == 1:
-            # the same thing as an explicit match on the callback's optional answer: None -> Deny, Some(a) -> a.into()
+        if len(cb) == 1:
+            # None -> Deny, Some(a) -> a.into()   (written as a match, or as `.map(|a| a.into()).unwrap_or(Deny)`, which the
+            # view writes out as that match)
             oc_ = q.outcomes(b, cb[0])
             exs_ = q.exits(b)
-            okn = False
-            for e_ in oc_.get('None', []):
-                rs_ = b.reach_set(e_)
-                xs_ = [x for x in exs_ if x['node'] in rs_]
-                okn = bool(xs_) and all(x['kind'] == 'agg' and x.get('adt') == AUTH and x['variant'] == 'Deny' for x in xs_)
-            oks = False
-            for e_ in oc_.get('Some', []):
-                rs_ = b.reach_set(e_)
-                xs_ = [x for x in exs_ if x['node'] in rs_ and not (x['kind'] == 'agg' and x['variant'] == 'Deny' and any(x['node'] in b.reach_set(n_) for n_ in oc_.get('None', [])))]
-                oks = bool(xs_) and all(x['kind'] == 'call' and x['cs'].declared in ('core::convert::Into::into', 'core::convert::From::from') and
-                                        q.sem(b, x['cs'].args[0]).kind == 'call' and q.sem(b, x['cs'].args[0]).cs is cb[0] for x in xs_)
+            none_e, some_e = oc_.get('None', []), oc_.get('Some', [])
+            none_reach = set()
+            for e_ in none_e:
+                none_reach |= b.reach_set(e_)
+            okn = bool(none_e)
+            for e_ in none_e:
+                xs_ = [x for x in exs_ if x['node'] in b.reach_set(e_)]
+                okn = okn and bool(xs_) and all((lambda v: v.kind == 'agg' and isinstance(v.extra, dict) and norm(v.extra.get('adt', '')) == AUTH and v.extra.get('variant') == 'Deny')(q.exit_sem(b, x)) for x in xs_)
+            oks = bool(some_e)
+            for e_ in some_e:
+                xs_ = [x for x in exs_ if x['node'] in b.reach_set(e_) and x['node'] not in none_reach]
+                def conv(v):
+                    return v.kind == 'call' and not v.proj and v.cs.declared in ('core::convert::Into::into', 'core::convert::From::from') and \
+                        q.sem(b, v.cs.args[0]).kind == 'call' and q.sem(b, v.cs.args[0]).cs is cb[0]
+                oks = oks and bool(xs_) and all(conv(q.exit_sem(b, x)) for x in xs_)
             okd = okn and oks
-        c.ob('ffi/%s/default-deny' % meth, okd, 'a missing callback result becomes Authorization::Deny', 'unwrap_or sites: %d' % len(uo), loc_of(b))
+        uo = []
+        c.ob('ffi/%s/default-deny' % meth, okd, 'a missing callback result becomes Authorization::Deny, a present one is converted as it is', '', loc_of(b))
         n += 1
     c.exact('ffi authorization callbacks', n, 8)
     conv = P.find_impl('core::convert::From', AUTH, 'from', 'rodbus_ffi::ffi::Authorization')
